@@ -170,15 +170,28 @@ func c02(tier string) []*explore.Scenario {
 	out = append(out, c16RPCFam("C02", "2streams", true, 1), c16RPCFam("C02", "unary+stream", false, 1))
 	if tier == "thorough" {
 		out = append(out, c02One([]streamCase{{"Bidi", "pingpong", "echo", 1, 0, 0}, {"Bidi", "pingpong", "echo", 1, 0, 0}, {"Bidi", "pingpong", "echo", 1, 0, 0}}, 64, 1))
-		// long streams and many streams under the default schedule and one deviation
-		long := c02One([]streamCase{{"Bidi", "pingpong", "echo", 200, 0, 0}}, 64, 0)
-		long.SelectCost = true
 		long2 := c02One([]streamCase{{"Bidi", "sendall", "echo", 40, 0, 0}}, 64, 1)
 		long2.SelectCost = true
-		out = append(out, long, long2)
+		out = append(out, long2)
+	}
+	// scale, under the default schedule: streams of 200 messages of every kind and program that
+	// does not need flow control, and 32 streams multiplexed at once (same and mixed kinds)
+	for _, c := range []streamCase{{"Bidi", "pingpong", "echo", 200, 0, 0}, {"Bidi", "concurrent", "echo", 200, 0, 0}, {"SStream", "sendall", "burst", 1, 200, 0},
+		{"CStream", "sendall", "collect", 200, 0, 0}, {"Bidi", "concurrent", "collect", 200, 0, 0}, {"Bidi", "earlyclose", "sendret", 0, 200, 0}, {"Bidi", "concurrent", "retearly", 200, 100, 0}} {
+		for _, cp := range []int{0, 64} {
+			long := c02One([]streamCase{c}, cp, 0)
+			long.SelectCost = true
+			out = append(out, long)
+		}
+	}
+	for _, mixed := range []bool{false, true} {
 		var many []streamCase
 		for i := 0; i < 32; i++ {
-			many = append(many, streamCase{"Bidi", "pingpong", "echo", 1, 0, 0})
+			c := streamCase{"Bidi", "pingpong", "echo", 1, 0, 0}
+			if mixed {
+				c = []streamCase{{"Bidi", "pingpong", "echo", 2, 0, 0}, {"SStream", "sendall", "burst", 1, 3, 0}, {"CStream", "sendall", "collect", 3, 0, 0}, {"Bidi", "concurrent", "echo", 2, 0, 0}}[i%4]
+			}
+			many = append(many, c)
 		}
 		m := c02One(many, 64, 0)
 		m.SelectCost = true
